@@ -54,6 +54,14 @@ class EidField(CborField):
         else:
             raise RuntimeError('Unhandled scheme type')
 
+    def getfield(self, pkt, s):
+        if s and s[0] is None:
+            # None stands for "no value" inside this program only: a null
+            # item on the wire is not an endpoint ID, and i2m() would send
+            # it on as dtn:none
+            raise ValueError('EID is null')
+        return CborField.getfield(self, pkt, s)
+
     def m2i(self, pkt, x):
         if x is None:
             return None
